@@ -1113,7 +1113,12 @@ class C17(PropertyCheck):
         # (skipped when a data point sits exactly on the baseline and EM has run: the fitted centre
         # then differs from the baseline by rounding only, and sign/rank statistics jump there)
         on_base = niter > 0 and any(abs(v - base) < 1e-9 for v in x)
-        if fail is None and base != 0 and (stat != "median_mfx" or STRICT_MEDIAN_MFX_BASE) and not on_base:
+        # mean_mfx / median_mfx run their (truncated) EM on the raw data and subtract the baseline afterwards: the
+        # iterates start from the absolute origin, so at a finite number of iterations the estimate of x and that of
+        # x - base differ (they meet in the limit); the shift law is exact only for niter = 0 there
+        em_on_raw = stat in ("mean_mfx", "median_mfx") and niter > 0
+        if fail is None and base != 0 and (stat != "median_mfx" or STRICT_MEDIAN_MFX_BASE) and not on_base \
+                and not em_on_raw:
             # every statistic is a function of the residuals x - base
             t0 = c_osmfx(stat, xa - base, va, 0.0, niter)
             if math.isfinite(t) and math.isfinite(t0) and not close(t, t0, 1e-6, 1e-7):
